@@ -43,7 +43,10 @@ UNKS = (0, 1, 2)
 
 def _call(fn, conv):
     try:
-        return conv(fn())
+        raw = fn()
+        out = conv(raw)
+        h.spoil(raw)        # whatever container came back is the caller's to modify
+        return out
     except RecursionError:
         return "exc:RecursionError"
     except Exception as e:  # noqa
